@@ -41,3 +41,29 @@ Proof.
   exact (store_roundtrip xml_meta gen_xml_w gen_xml_r xml_pairs fl gen_compat xml_tops gen_tops_in gen_tops_nodup
            n objs Hwf seen Hids).
 Qed.
+
+(* single-object API *)
+Lemma gen_single_unsupported : single_unsupported = ["SECURITY"; "IEC61360_CONCEPT_DESCRIPTION"].
+Proof. vm_compute. reflexivity. Qed.
+
+Lemma gen_single_in : forall m t, In (m, t) single_triples -> tmem t xml_pairs = true.
+Proof.
+  assert (H : forallb (fun mt : string * triple => tmem (snd mt) xml_pairs) single_triples = true)
+    by (vm_compute; reflexivity).
+  intros m t Hin. rewrite forallb_forall in H. exact (H (m, t) Hin).
+Qed.
+
+Lemma gen_single_roundtrip : forall fl n m fn c ctor v tag,
+  In (m, (fn, c, ctor)) single_triples -> cls_of v = c -> wfb xml_meta n v = true ->
+  exists x, enc_obj fl gen_xml_w n fn tag v = Ok x /\ xtag x = tag /\ dec_obj gen_xml_r xml_meta n ctor x = Ok v.
+Proof.
+  intros fl n m fn c ctor v tag Hin. apply gen_roundtrip. exact (gen_single_in m (fn, c, ctor) Hin).
+Qed.
+
+(* every class of the metamodel table that the single-object writer accepts is paired with a constructable *)
+Lemma gen_single_classes :
+  forallb (fun cw : string * (string * string * bool) =>
+             match cw with (c, (_, _, raises)) =>
+               negb raises && existsb (fun mt : string * triple => match snd mt with (_, c', _) => String.eqb c' c end)
+                                      single_triples end) xml_w_single = true.
+Proof. vm_compute. reflexivity. Qed.
